@@ -114,7 +114,8 @@ def observe(coll):
     nparts = int(coll.npartitions) if hasattr(coll, "npartitions") else 1
     parts = [describe(p) for p in partitions_of(coll)]
     whole = describe(coll.compute(scheduler="sync"))
-    return {"meta": meta, "whole": whole, "parts": parts, "nparts": nparts}
+    ndivs = len(tuple(coll.divisions)) - 1 if hasattr(coll, "divisions") else 1
+    return {"meta": meta, "whole": whole, "parts": parts, "nparts": nparts, "ndivs": ndivs}
 
 
 # ----------------------------------------------------------------------------- the rich source frame
@@ -495,6 +496,47 @@ NAN_MENU = _nan_family()
 MENU.update(NAN_MENU)
 
 
+# ----------------------------------------------------------------------------- aligned operations, unknown divisions
+# Index-aligned operations between two collections that are NOT co-aligned, with DIFFERENT partition counts in both orders
+# (fewer first / more first) and unknown divisions on one or both sides: the declared npartitions / divisions must describe the
+# partitions the lowered (shuffled / repartitioned) graph really builds.  Both operands carry the same unique labels 0..11, so
+# no missing value is inserted (the dtype question belongs to the family above).  The entries do not read the source frame.
+def _pair(m, na, nb, unknown):
+    pa = pd.DataFrame({"i": np.arange(12, dtype="int64"), "f": np.arange(12) * 0.5, "b": np.arange(12) % 2 == 0}, index=pd.Index(range(12), dtype="int64"))
+    pb = pd.DataFrame({"i": np.arange(12, dtype="int64") * 10, "f": np.arange(12) * 1.5, "b": np.arange(12) % 3 == 0}, index=pd.Index(range(12), dtype="int64"))
+    a, b = m.from_pandas(pa, npartitions=na), m.from_pandas(pb, npartitions=nb)
+    if unknown in ("both", "first"):
+        a = a.clear_divisions()
+    if unknown in ("both", "second"):
+        b = b.clear_divisions()
+    return a, b
+
+
+def _align_family():
+    ops = {
+        "series+series": lambda a, b: a.i + b.i,
+        "frame+frame": lambda a, b: a[["i", "f"]] + b[["i", "f"]],
+        "add(fill_value)": lambda a, b: a.i.add(b.i, fill_value=0),
+        "where": lambda a, b: a.f.where(b.b, 0.0),
+        "mask": lambda a, b: a[["i", "f"]].mask(b.b, 0),
+        "assign": lambda a, b: a.assign(z=b.i),
+        "fillna(series)": lambda a, b: a.f.fillna(b.f),
+        "filter(by other)": lambda a, b: a[b.b],
+        "combine_first": lambda a, b: a[["i", "f"]].combine_first(b[["i", "f"]]),
+        "loc(by other)": lambda a, b: a.loc[b.b],
+    }
+    fam = {}
+    for (na, nb) in ((2, 4), (4, 2), (1, 3), (3, 1), (2, 3)):
+        for unknown in ("both", "first", "second"):
+            for name, f in ops.items():
+                fam["align-unknown:%s:%dvs%d:%s" % (name, na, nb, unknown)] = (lambda x, m, f=f, na=na, nb=nb, unknown=unknown: f(*_pair(m, na, nb, unknown)))
+    return fam
+
+
+ALIGN_MENU = _align_family()
+MENU.update(ALIGN_MENU)
+
+
 def nan_site(opname):
     """Call site of a missing-value-family entry: the method and whether it runs frame-wide or on which column - not the period."""
     body = opname[4:]
@@ -540,6 +582,8 @@ for _site, _names in {
 
 
 def site_of(opname):
+    if opname.startswith("align-unknown:"):
+        return "aligned(unknown divisions, different partition counts)"      # one call site: the divisions / lowering of aligned expressions
     if opname.startswith("nan:"):
         return nan_site(opname)
     return SITE.get(opname, opname)
@@ -696,8 +740,10 @@ def gen_programs(ctx, n_layouts, n_two, n_pipes, n_nan=2):
         if mode == "known" and not known_ok(pdf, layout):
             mode = "unknown"
         srcs.append({"seed": seed, "n": n, "layout": layout, "mode": mode})
+    for name in ALIGN_MENU:                 # these entries build their own operands: once each
+        progs.append({"pid": "m%d" % len(progs), "src": {"seed": 1, "n": 5, "layout": [5], "mode": "from_pandas"}, "first": "", "op": name})
     for name in MENU:
-        if name in NAN_MENU:
+        if name in NAN_MENU or name in ALIGN_MENU:
             continue
         for s in srcs:
             progs.append({"pid": "m%d" % len(progs), "src": s, "first": "", "op": name})
@@ -714,6 +760,8 @@ def gen_programs(ctx, n_layouts, n_two, n_pipes, n_nan=2):
     gentle = ["assign(f=f.fillna)", "map_partitions(identity)"]      # keep every partition as long as it was
     for _ in range(n_two):
         name = rng.choice(names)
+        if name in ALIGN_MENU:
+            continue
         if name in NAN_MENU:
             progs.append({"pid": "m%d" % len(progs), "src": rng.choice(nan_srcs), "first": rng.choice(gentle), "op": name})
         else:
@@ -782,7 +830,7 @@ def run(ctx):
     for r in recs[:2]:
         ctx.sample({"op": r["opname"], "meta": r["obs"]["meta"], "nparts": r["obs"]["nparts"]})
     ctx.exhaustive = False
-    ctx.extra["program_counts"] = {"menu_entries": len(MENU), "missing_value_family_entries": len(NAN_MENU), "menu_programs": len(progs), "c36_pipelines": len(pipes), "records": len(recs)}
+    ctx.extra["program_counts"] = {"menu_entries": len(MENU), "missing_value_family_entries": len(NAN_MENU), "aligned_unknown_divisions_entries": len(ALIGN_MENU), "menu_programs": len(progs), "c36_pipelines": len(pipes), "records": len(recs)}
     ctx.rule = ("cases = collections produced by recorded programs (menu entry x seeded source / partitioning, two-step programs, every "
                 "intermediate of seeded C36 pipelines); each is one observation (meta, computed, partitions); distinct by (program, step)")
     ctx.assumptions = ["TLC evaluates the invariant correctly", "the description projection maps dtypes to classes as documented",
@@ -855,6 +903,7 @@ def selftest(ctx):
     import dask
     dask.config.set({"temporary-directory": ctx.scratch})       # disk-based shuffles must not litter /tmp
     import dask.dataframe.dask_expr._expr as ex
+    from ..divisions import mutate
     design_check(ctx)
     srcs = [{"seed": 5, "n": 8, "layout": [3, 0, 5], "mode": "unknown"}, {"seed": 11, "n": 9, "layout": [4, 5], "mode": "from_pandas"}]
     names = ["project[i,s]", "project[s,i] (reordered)", "filter(i>1)", "assign(f+i)", "i+f", "i.astype(f4)", "f.astype(str)", "frame.astype(dict)", "b.astype(i8)", "rename(cols)",
@@ -868,6 +917,8 @@ def selftest(ctx):
                  "nan:shift(1):all columns", "nan:diff(1):frame", "nan:diff(1):i", "nan:diff(-1):b", "nan:rolling.sum:frame", "nan:ffill:frame",
                  "nan:groupby.shift:frame"]
     progs += [{"pid": "n%d" % i, "src": nan_src, "first": "", "op": name} for i, name in enumerate(nan_names)]
+    align_names = [n for n in ALIGN_MENU if n.split(":")[1] in ("series+series", "where", "assign", "filter(by other)") and n.split(":")[2] in ("2vs4", "4vs2")]
+    progs += [{"pid": "a%d" % i, "src": srcs[1], "first": "", "op": name} for i, name in enumerate(align_names)]
 
     def meta_prop(fn):
         cp = functools.cached_property(fn)
@@ -889,6 +940,8 @@ def selftest(ctx):
          meta_prop(lambda self: self.frame._meta), uses("rename_axis")),
         ("ToFrame._meta: the name= argument is ignored in the metadata", [ex.ToFrame], "_meta",
          meta_prop(lambda self: self.frame._meta.to_frame()), uses("to_frame(name)")),
+        ("calc_divisions_for_align: unknown divisions declared with the partition count of the FIRST operand instead of the largest", [ex],
+         "calc_divisions_for_align", mutate(ex.calc_divisions_for_align, "max(df.npartitions for df in dfs)", "dfs[0].npartitions"), uses("align-unknown:")),
         ("Shift._meta: evaluated on the EMPTY meta instead of meta_nonempty (no missing value to insert: int / bool dtypes kept)", [ex.Shift], "_meta",
          meta_prop(lambda self: ex.make_meta(self.frame._meta.shift(**self.kwargs))), uses("nan:shift")),
     ]
